@@ -4,387 +4,270 @@ import (
 	"bytes"
 	"errors"
 	"fmt"
-	"time"
 
 	"github.com/filecoin-project/go-f3/certs"
 	"github.com/filecoin-project/go-f3/certstore"
 	"github.com/filecoin-project/go-f3/gpbft"
 	"github.com/filecoin-project/go-f3/zz_verif/certgen"
+	"github.com/filecoin-project/go-f3/zz_verif/coop"
+	"github.com/filecoin-project/go-f3/zz_verif/kernel"
 )
 
-// C09, concurrent readers and writers. One writer task and two reader tasks run on goroutines of
-// their own, but only one of them runs at any time: every task parks in the datastore gate before
-// each datastore operation and the seeded scheduler (the main goroutine) decides who proceeds. The
-// store's write lock is held by Put across its datastore operations, so an operation that takes
-// the lock (Put, Latest, GetPowerTable's snapshot) is only *started* while the writer is not inside
-// a Put; tasks already past their lock (parked at a datastore read) interleave freely with it.
+// C09, concurrent readers and writers. certstore.go is compiled with a yield point before every
+// statement and with simulated mutexes (tools/instr, packages coop and simsync): one or two writer
+// tasks and two reader tasks run on goroutines of their own, one at a time, and the seeded
+// scheduler decides at yield points and at contended locks who proceeds. Every completed operation
+// is checked against bounds that hold for any linearisation: what was committed before the
+// operation began must be visible, nothing may be visible that no started Put carries, and
+// whatever is returned is byte-equal to the model.
 
-type ctask struct {
-	name   string
-	resume chan struct{}
-	ops    chan func()
-	inOp   bool
-	parked bool
-	check  func() // evaluates the operation that just completed
-	left   int
-}
-
-type cevt struct {
-	t    *ctask
-	done bool
+type pendingPut struct {
+	cert *certs.FinalityCertificate
+	next gpbft.PowerEntries
 }
 
 func (s *c09) concurrentPhase(budget int) {
 	c, m, cs := s.c, s.m, s.cs
 	g := s.gen
-	ev := make(chan cevt)
-	var cur *ctask
-	draining := false
-	s.ds.Gate = func(op, key string) {
-		if draining {
-			return
-		}
-		t := cur
-		ev <- cevt{t, false}
-		<-t.resume
-	}
-	mk := func(name string, n int) *ctask {
-		t := &ctask{name: name, resume: make(chan struct{}), ops: make(chan func()), left: n}
-		go func() {
-			for f := range t.ops {
-				f()
-				ev <- cevt{t, true}
-			}
-		}()
-		return t
-	}
-	w := mk("writer", 2+c.Intn(6))
-	readers := []*ctask{mk("reader1", 2+c.Intn(8)), mk("reader2", c.Intn(6))}
-	tasks := append([]*ctask{w}, readers...)
-	defer func() {
-		// let whatever is still in flight run to completion unscheduled (nothing is checked any more)
-		draining = true
-		for _, t := range tasks {
-			if t.parked {
-				t.parked = false
-				t.resume <- struct{}{}
-			}
-		}
-		deadline := time.After(5 * time.Second)
-		for _, t := range tasks {
-			for t.inOp {
-				select {
-				case e := <-ev:
-					if e.done {
-						e.t.inOp = false
-					}
-				case <-deadline:
-					return // a task is stuck for good (already reported); its goroutine is abandoned
-				}
-			}
-		}
-		for _, t := range tasks {
-			close(t.ops)
-		}
-		s.ds.Gate = nil
-	}()
+	sched := coop.New(c.Intn, []int{3, 10, 30}[c.Intn(3)])
+	sched.Trace = func(l string) { s.r.Tracef("c: %s", l) }
 
-	// model of what is in flight
-	var pendingCert *certs.FinalityCertificate
-	var pendingTable gpbft.PowerEntries
-	started := len(m.certs) // number of valid certificates whose Put has started (monotone)
-	certAt := func(j int) *certs.FinalityCertificate {
+	// candidates[j] are the certificates some started Put carries for index j (instance first+j)
+	candidates := map[int][]pendingPut{}
+	started := len(m.certs) // number of indices for which a valid Put has started (monotone)
+	first := m.first
+	reach := 0 // no Put of this phase can concern an index beyond this
+	certOK := func(j int, got *certs.FinalityCertificate) bool {
+		gb := certgen.CertBytes(got)
 		if j < len(m.certs) {
-			return m.certs[j]
+			return bytes.Equal(gb, certgen.CertBytes(m.certs[j]))
 		}
-		if j == len(m.certs) && pendingCert != nil {
-			return pendingCert
-		}
-		return nil
-	}
-	tableAt := func(j int) gpbft.PowerEntries {
-		if j < len(m.tables) {
-			return m.tables[j]
-		}
-		if j == len(m.tables) && pendingTable != nil {
-			return pendingTable
-		}
-		return nil
-	}
-
-	// wait returns when the task that was just started or resumed has parked or completed. If
-	// nothing happens for a while the task is waiting for a lock held by a parked task (an
-	// implementation is free to take the store's lock in any reader): the phase then falls back to
-	// letting everything in flight run freely — the bounds checked per operation hold for any
-	// interleaving — and ends. Only if the operations do not complete even then is something
-	// blocked for good (a writer stuck behind an unread subscriber).
-	wait := func() bool {
-		handle := func(e cevt) {
-			if e.done {
-				e.t.inOp, e.t.parked = false, false
-				if e.t.check != nil {
-					e.t.check()
-					e.t.check = nil
-				}
-			} else {
-				e.t.parked = true
-			}
-		}
-		select {
-		case e := <-ev:
-			handle(e)
-			return true
-		case <-time.After(3 * time.Second):
-		}
-		s.r.Probe("concurrent_lock_wait_fallback")
-		draining = true
-		for _, t := range tasks {
-			if t.parked {
-				t.parked = false
-				t.resume <- struct{}{}
-			}
-		}
-		deadline := time.After(30 * time.Second)
-		for _, t := range tasks {
-			for t.inOp {
-				select {
-				case e := <-ev:
-					handle(e)
-				case <-deadline:
-					s.fail("put_blocked", "concurrent", "operations of %s did not complete within 30s although nothing was held back any more (unread subscribers: %d)", t.name, len(s.subs))
-					return false
-				}
+		for _, p := range candidates[j] {
+			if bytes.Equal(gb, certgen.CertBytes(p.cert)) {
+				return true
 			}
 		}
 		return false
 	}
-
-	startWriter := func() func() {
-		next := m.next()
-		curT := m.tables[len(m.tables)-1]
-		switch c.Pick([]int{75, 12, 13}) {
-		case 0:
-			nt := g.Evolve(curT)
-			cert := g.Cert(next, g.Chain(s.latestHead(), next, 3), curT, nt)
-			pendingCert, pendingTable = cert, nt
-			started++
-			var err error
-			s.r.Tracef("c: writer starts Put(%d)", next)
-			w.check = func() {
-				s.r.Tracef("c: writer Put(%d) -> %v", next, err)
-				if err != nil {
-					s.fail("valid_put_rejected", "concurrent", "Put of the immediate successor %d was rejected while readers were active: %v", next, err)
-					return
-				}
-				m.certs = append(m.certs, cert)
-				m.tables = append(m.tables, nt)
-				pendingCert, pendingTable = nil, nil
-				for _, sb := range s.subs {
-					sb.pending = cert
-				}
-				if s.freq > 0 && (next+1)%s.freq == 0 {
-					s.r.Probe("concurrent_checkpoint_crossed")
+	tableOK := func(j int, got gpbft.PowerEntries) bool {
+		if j < len(m.tables) {
+			return tablesEqual(got, m.tables[j])
+		}
+		for _, p := range candidates[j-1] {
+			if tablesEqual(got, p.next) {
+				return true
+			}
+		}
+		return false
+	}
+	// commit makes the model follow the store after a Put for index j returned without error
+	commit := func(who string, j int) {
+		for len(m.certs) <= j {
+			i := len(m.certs)
+			stored, err := cs.Get(bg, first+uint64(i))
+			if err != nil {
+				s.fail("concurrent_read_lost", "after_put", "%s: Put(%d) returned no error but Get(%d) fails: %v", who, first+uint64(j), first+uint64(i), err)
+				return
+			}
+			if len(m.certs) > i {
+				continue // another writer's commit got there while the Get above was in progress
+			}
+			var hit *pendingPut
+			for k := range candidates[i] {
+				if bytes.Equal(certgen.CertBytes(stored), certgen.CertBytes(candidates[i][k].cert)) {
+					hit = &candidates[i][k]
 				}
 			}
-			return func() { err = cs.Put(bg, cert) }
-		case 1: // stale duplicate with different content: nothing may change
-			if len(m.certs) == 0 {
-				return nil
+			if hit == nil {
+				s.fail("concurrent_read_wrong", "after_put", "%s: the certificate stored at %d is none of those put for that instance", who, first+uint64(i))
+				return
 			}
-			j := c.Intn(len(m.certs))
-			inst := m.first + uint64(j)
-			dup := g.Cert(inst, g.Chain(s.base, inst, 2), m.tables[j], g.Evolve(m.tables[j]))
-			var err error
-			w.check = func() {
-				s.r.Tracef("c: writer Put(stale %d) -> %v", inst, err)
-				if err != nil {
-					s.fail("stale_put_error", "concurrent", "Put of the already stored instance %d returned %v", inst, err)
-				}
+			m.certs = append(m.certs, hit.cert)
+			m.tables = append(m.tables, hit.next)
+			for _, sb := range s.subs {
+				sb.pending = hit.cert
 			}
-			return func() { err = cs.Put(bg, dup) }
-		default: // gap
-			inst := next + 1 + uint64(c.Intn(3))
-			gap := g.Cert(inst, g.Chain(s.latestHead(), inst, 2), curT, curT)
-			var err error
-			w.check = func() {
-				s.r.Tracef("c: writer Put(gap %d) -> %v", inst, err)
-				if err == nil {
-					s.fail("gap_accepted", "concurrent", "Put(%d) was accepted although the next instance is %d", inst, next)
-				}
+			if s.freq > 0 && (first+uint64(i)+1)%s.freq == 0 {
+				s.r.Probe("concurrent_checkpoint_crossed")
 			}
-			return func() { err = cs.Put(bg, gap) }
 		}
 	}
 
-	startReader := func(t *ctask, lockFree bool) func() {
-		lo := len(m.certs) // certificates committed when the operation starts
-		first := m.first
-		hi := func() int { return started }
-		kinds := []int{30, 35, 25, 10}
-		if lockFree {
-			kinds = []int{45, 55, 0, 0}
-		}
-		switch c.Pick(kinds) {
-		case 0: // Get
-			j := c.Intn(lo + 3)
-			inst := first + uint64(j)
-			var got *certs.FinalityCertificate
-			var err error
-			t.check = func() {
-				s.r.Tracef("c: %s Get(%d) -> %v", t.name, inst, err)
-				switch {
-				case err == nil && (certAt(j) == nil || !bytes.Equal(certgen.CertBytes(got), certgen.CertBytes(certAt(j)))):
-					s.fail("concurrent_read_wrong", "get", "Get(%d) concurrent with the writer returned a certificate that was never put at that instance", inst)
-				case err != nil && j < lo:
-					s.fail("concurrent_read_lost", "get", "Get(%d) failed (%v) although the certificate was stored before the read began", inst, err)
-				case err == nil && j >= hi():
-					s.fail("concurrent_read_wrong", "get_future", "Get(%d) succeeded although no Put for that instance had started", inst)
-				}
-			}
-			return func() { got, err = cs.Get(bg, inst) }
-		case 1: // GetRange
-			if lo == 0 && started == 0 {
-				return nil
-			}
-			a := c.Intn(lo + 1)
-			b := a + c.Intn(lo-a+3)
-			var got []certs.FinalityCertificate
-			var err error
-			t.check = func() {
-				s.r.Tracef("c: %s GetRange(%d,%d) -> %d certs, %v", t.name, first+uint64(a), first+uint64(b), len(got), err)
-				for i := range got {
-					want := certAt(a + i)
-					if want == nil || !bytes.Equal(certgen.CertBytes(&got[i]), certgen.CertBytes(want)) {
-						s.fail("concurrent_read_wrong", "range", "GetRange(%d,%d) concurrent with the writer: element %d is not the certificate of instance %d", first+uint64(a), first+uint64(b), i, first+uint64(a+i))
+	writer := func(name string, n int) func() {
+		return func() {
+			for k := 0; k < n && s.viol == nil; k++ {
+				j := len(m.certs)
+				next := first + uint64(j)
+				curT := m.tables[len(m.tables)-1]
+				switch c.Pick([]int{75, 12, 13}) {
+				case 0:
+					nt := g.Evolve(curT)
+					cert := g.Cert(next, g.Chain(s.latestHead(), next, 3), curT, nt)
+					candidates[j] = append(candidates[j], pendingPut{cert, nt})
+					if len(candidates[j]) > 1 {
+						s.r.Probe("concurrent_writers_same_instance")
+					}
+					if started < j+1 {
+						started = j + 1
+					}
+					s.r.Tracef("c: %s starts Put(%d)", name, next)
+					err := cs.Put(bg, cert)
+					s.r.Tracef("c: %s Put(%d) -> %v", name, next, err)
+					if err != nil {
+						s.fail("valid_put_rejected", "concurrent", "%s: Put of a successor (%d) built on the latest state was rejected: %v", name, next, err)
+						return
+					}
+					commit(name, j)
+				case 1: // stale duplicate with different content: nothing may change
+					if j == 0 {
+						continue
+					}
+					i := c.Intn(j)
+					inst := first + uint64(i)
+					dup := g.Cert(inst, g.Chain(s.base, inst, 2), m.tables[i], g.Evolve(m.tables[i]))
+					err := cs.Put(bg, dup)
+					s.r.Tracef("c: %s Put(stale %d) -> %v", name, inst, err)
+					if err != nil {
+						s.fail("stale_put_error", "concurrent", "Put of the already stored instance %d returned %v", inst, err)
+						return
+					}
+					if got, err := cs.Get(bg, inst); err != nil || !bytes.Equal(certgen.CertBytes(got), certgen.CertBytes(m.certs[i])) {
+						s.fail("stale_put_changed_history", "concurrent", "after a stale Put(%d) the stored certificate differs (err %v)", inst, err)
+						return
+					}
+				default: // gap: beyond everything the writers of this phase can ever reach
+					inst := first + uint64(reach) + 1 + uint64(c.Intn(3))
+					gap := g.Cert(inst, g.Chain(s.latestHead(), inst, 2), curT, curT)
+					err := cs.Put(bg, gap)
+					s.r.Tracef("c: %s Put(gap %d) -> %v", name, inst, err)
+					if err == nil {
+						s.fail("gap_accepted", "concurrent", "Put(%d) was accepted although its predecessor was never put", inst)
 						return
 					}
 				}
-				mustHave := min(b, lo-1) - a + 1
-				if len(got) < mustHave {
-					s.fail("concurrent_read_lost", "range", "GetRange(%d,%d) returned %d certificates although %d of them were stored before the read began", first+uint64(a), first+uint64(b), len(got), mustHave)
-					return
-				}
-				if a+len(got) > hi() {
-					s.fail("concurrent_read_wrong", "range_future", "GetRange returned %d certificates from %d although only %d Puts had started", len(got), first+uint64(a), hi())
-					return
-				}
-				full := len(got) == b-a+1
-				if full && err != nil {
-					s.fail("concurrent_read_wrong", "range_err", "GetRange returned the full range together with error %v", err)
-				} else if !full && !errors.Is(err, certstore.ErrCertNotFound) {
-					s.fail("concurrent_read_wrong", "range_err", "GetRange returned %d of %d certificates with error %v (want ErrCertNotFound)", len(got), b-a+1, err)
-				}
 			}
-			return func() { got, err = cs.GetRange(bg, first+uint64(a), first+uint64(b)) }
-		case 2: // GetPowerTable (takes its snapshot under the read lock, then reads lock-free)
-			j := c.Intn(lo + 3)
-			inst := first + uint64(j)
-			var got gpbft.PowerEntries
-			var err error
-			s.r.Probe("concurrent_power_table_query")
-			t.check = func() {
-				s.r.Tracef("c: %s GetPowerTable(%d) -> %d entries, %v", t.name, inst, len(got), err)
-				switch {
-				case err != nil && j <= lo:
-					s.fail("concurrent_read_lost", "table", "GetPowerTable(%d) failed (%v) although the store's next instance was %d when the query began", inst, err, first+uint64(lo))
-				case err == nil && j > hi():
-					s.fail("concurrent_read_wrong", "table_future", "GetPowerTable(%d) succeeded although the store's next instance can be at most %d", inst, first+uint64(hi()))
-				case err == nil && (tableAt(j) == nil || !tablesEqual(got, tableAt(j))):
-					s.fail("concurrent_read_wrong", "table", "GetPowerTable(%d) concurrent with the writer returned a table that is not the initial table with the deltas of all earlier instances applied", inst)
-				}
-			}
-			return func() { got, err = cs.GetPowerTable(bg, inst) }
-		default: // Latest
-			var got *certs.FinalityCertificate
-			t.check = func() {
-				var want *certs.FinalityCertificate
-				if lo > 0 {
-					want = m.certs[lo-1]
-				}
-				if (got == nil) != (want == nil) || got != nil && !bytes.Equal(certgen.CertBytes(got), certgen.CertBytes(want)) {
-					s.fail("concurrent_read_wrong", "latest", "Latest is not the last certificate whose Put completed")
-				}
-			}
-			return func() { got = cs.Latest() }
 		}
 	}
 
-	interleaved := 0
-	for n := 0; n < budget && s.viol == nil; n++ {
-		type choice struct {
-			t     *ctask
-			start bool
-		}
-		var el []choice
-		for _, t := range tasks {
-			switch {
-			case t.parked:
-				el = append(el, choice{t, false})
-			case !t.inOp && t.left > 0:
-				el = append(el, choice{t, true})
-			}
-		}
-		if len(el) == 0 {
-			break
-		}
-		ch := el[c.Intn(len(el))]
-		cur = ch.t
-		if !ch.start {
-			ch.t.parked = false
-			s.r.Tracef("c: resume %s", ch.t.name)
-			ch.t.resume <- struct{}{}
-		} else {
-			var f func()
-			if ch.t == w {
-				f = startWriter()
-			} else {
-				f = startReader(ch.t, w.inOp)
-			}
-			ch.t.left--
-			if f == nil {
-				continue
-			}
-			others := 0
-			for _, t := range tasks {
-				if t != ch.t && t.inOp {
-					others++
+	reader := func(name string, n int) func() {
+		return func() {
+			lastLatest := -1
+			for k := 0; k < n && s.viol == nil; k++ {
+				lo := len(m.certs) // committed when the operation starts
+				switch c.Pick([]int{25, 30, 30, 15}) {
+				case 0: // Get
+					j := c.Intn(lo + 3)
+					inst := first + uint64(j)
+					got, err := cs.Get(bg, inst)
+					s.r.Tracef("c: %s Get(%d) -> %v", name, inst, err)
+					switch {
+					case err == nil && j >= started:
+						s.fail("concurrent_read_wrong", "get_future", "Get(%d) succeeded although no Put for that instance had started", inst)
+					case err == nil && !certOK(j, got):
+						s.fail("concurrent_read_wrong", "get", "Get(%d) concurrent with writers returned a certificate that was never put at that instance", inst)
+					case err != nil && j < lo:
+						s.fail("concurrent_read_lost", "get", "Get(%d) failed (%v) although the certificate was stored before the read began", inst, err)
+					}
+				case 1: // GetRange
+					if lo == 0 && started == 0 {
+						continue
+					}
+					a := c.Intn(lo + 1)
+					b := a + c.Intn(lo-a+3)
+					got, err := cs.GetRange(bg, first+uint64(a), first+uint64(b))
+					s.r.Tracef("c: %s GetRange(%d,%d) -> %d certs, %v", name, first+uint64(a), first+uint64(b), len(got), err)
+					for i := range got {
+						if a+i >= started || !certOK(a+i, &got[i]) {
+							s.fail("concurrent_read_wrong", "range", "GetRange(%d,%d) concurrent with writers: element %d is not a certificate put at instance %d", first+uint64(a), first+uint64(b), i, first+uint64(a+i))
+							return
+						}
+					}
+					if mustHave := min(b, lo-1) - a + 1; len(got) < mustHave {
+						s.fail("concurrent_read_lost", "range", "GetRange(%d,%d) returned %d certificates although %d of them were stored before the read began", first+uint64(a), first+uint64(b), len(got), mustHave)
+						return
+					}
+					full := len(got) == b-a+1
+					if full && err != nil {
+						s.fail("concurrent_read_wrong", "range_err", "GetRange returned the full range together with error %v", err)
+					} else if !full && !errors.Is(err, certstore.ErrCertNotFound) {
+						s.fail("concurrent_read_wrong", "range_err", "GetRange returned %d of %d certificates with error %v (want ErrCertNotFound)", len(got), b-a+1, err)
+					}
+				case 2: // GetPowerTable
+					j := c.Intn(lo + 3)
+					inst := first + uint64(j)
+					s.r.Probe("concurrent_power_table_query")
+					got, err := cs.GetPowerTable(bg, inst)
+					s.r.Tracef("c: %s GetPowerTable(%d) -> %d entries, %v", name, inst, len(got), err)
+					switch {
+					case err != nil && j <= lo:
+						s.fail("concurrent_read_lost", "table", "GetPowerTable(%d) failed (%v) although the store's next instance was already %d when the query began", inst, err, first+uint64(lo))
+					case err == nil && j > started:
+						s.fail("concurrent_read_wrong", "table_future", "GetPowerTable(%d) succeeded although the store's next instance can be at most %d", inst, first+uint64(started))
+					case err == nil && !tableOK(j, got):
+						s.fail("concurrent_read_wrong", "table", "GetPowerTable(%d) concurrent with writers returned a table that is not the initial table with the deltas of the earlier instances applied", inst)
+					}
+				default: // Latest
+					got := cs.Latest()
+					gi := -1
+					if got != nil {
+						gi = int(got.GPBFTInstance - first)
+					}
+					switch {
+					case gi < lo-1:
+						s.fail("concurrent_read_lost", "latest", "Latest is instance index %d although index %d was committed before the call", gi, lo-1)
+					case gi >= started:
+						s.fail("concurrent_read_wrong", "latest_future", "Latest is instance index %d although only %d Puts had started", gi, started)
+					case gi < lastLatest:
+						s.fail("latest_went_backwards", "concurrent", "Latest went from index %d to %d for the same reader", lastLatest, gi)
+					case gi >= 0 && !certOK(gi, got):
+						s.fail("concurrent_read_wrong", "latest", "Latest returned a certificate that was never put at its instance")
+					}
+					lastLatest = max(lastLatest, gi)
 				}
 			}
-			if others > 0 {
-				interleaved++
-			}
-			ch.t.inOp = true
-			ch.t.ops <- f
 		}
-		if !wait() {
+	}
+
+	n1, n2 := 2+c.Intn(6), 0
+	if c.Chance(350) {
+		n2 = 1 + c.Intn(5)
+	}
+	reach = len(m.certs) + n1 + n2
+	sched.Go("writer1", writer("writer1", n1))
+	if n2 > 0 {
+		s.r.Probe("concurrent_two_writers")
+		sched.Go("writer2", writer("writer2", n2))
+	}
+	sched.Go("reader1", reader("reader1", 2+c.Intn(8)))
+	sched.Go("reader2", reader("reader2", c.Intn(6)))
+	err := sched.Run(budget)
+	s.r.Tracef("c: phase over: %d yield points passed, %d switches, %d lock waits, err=%v", sched.Yields, sched.Switches, sched.Blocks, err)
+	if sched.Switches > 0 {
+		s.r.Probe("concurrent_switch_inside_operation")
+	}
+	if sched.Blocks > 0 {
+		s.r.Probe("concurrent_lock_contended")
+	}
+	var stuck *coop.ErrStuck
+	var dead *coop.ErrDeadlock
+	switch {
+	case errors.As(err, &stuck):
+		s.fail("put_blocked", "concurrent", "task %s neither reached a yield point nor completed within %v (unread subscribers: %d)", stuck.Task, coop.StuckAfter, len(s.subs))
+		return
+	case errors.As(err, &dead):
+		s.fail("store_deadlock", "concurrent", "tasks %v wait for the store's lock and nobody can release it", dead.Blocked)
+		return
+	}
+	for _, t := range sched.Tasks() {
+		if t.Panic != nil {
+			if kernel.IsInfra(t.Panic) {
+				panic(t.Panic)
+			}
+			s.fail("store_panicked", "concurrent", "task %s panicked: %v", t.Name, t.Panic)
 			return
 		}
 	}
-	// run everything still in flight to completion (the writer first: it may hold the lock)
-	for s.viol == nil {
-		var t *ctask
-		for _, x := range tasks {
-			if x.parked {
-				t = x
-				break
-			}
-		}
-		if t == nil {
-			break
-		}
-		cur = t
-		t.parked = false
-		t.resume <- struct{}{}
-		if !wait() {
-			return
-		}
-	}
-	if interleaved > 0 {
-		s.r.Probe("concurrent_ops_overlapped")
-	}
-	s.r.Tracef("c: phase over, %d operations started while another was in flight", interleaved)
 	if s.viol == nil {
-		s.ds.Gate = nil
-		s.compareAll(fmt.Sprintf("after the concurrent phase (%d overlapping operations)", interleaved))
+		s.compareAll(fmt.Sprintf("after the concurrent phase (%d switches inside operations)", sched.Switches))
 	}
 }
